@@ -128,7 +128,10 @@ def _lex_shard(strings):
     for s in strings:
         part.count()
         want = dfa_split(s)
-        toks = tokenise(s)
+        try:
+            toks = sandbox.tokenise(s)
+        except sandbox.NonTermination:
+            toks = []
         got = [t.value for t in toks]
         part.outcome(len(want))
         if got != want or any(t.name != TokenType.NUMBER for t in toks):
